@@ -43,6 +43,37 @@ Proof. vm_compute. reflexivity. Qed.
 (* ---- distribution skeletons: for every rank count the scatter/compute/gather index
    arithmetic returns what one rank returns (models in Model/Dist.v call the translated split_idx) ---- *)
 From ESRV Require Import Model.Dist Proofs.DistProofs.
+From ESRV Require Import Gen.GenDist Proofs.DistGenProofs.
+
+(* the slice arithmetic the skeleton theorems below are stated on is what the code says now: regenerated from
+   generator.shape_to_functions, simplifier.make_changes and simplifier.check_results on every run (Gen/GenDist.v) *)
+Theorem C13_stf_bounds_is_code : forall T rank size, stf_bounds_code T rank size = stf_bounds T rank size.
+Proof. exact stf_bounds_is_code. Qed.
+Print Assumptions C13_stf_bounds_is_code.
+
+Theorem C13_stf_rank_extras_is_code : forall (B : Type) (g : Z -> list B) T rank size,
+  stf_rank_extras g T rank size
+  = (b <- stf_bounds_code T rank size ;;
+     let '(imin, imax) := b in
+     Some (flat_map (fun pos => if stf_guard_code pos imin imax then g pos else []) (zrange T))).
+Proof. exact stf_rank_extras_is_code. Qed.
+Print Assumptions C13_stf_rank_extras_is_code.
+
+Theorem C13_mc_bounds_is_code : forall (A : Type) (all_fun : list A) rank size,
+  mc_bounds_code all_fun rank size = mc_bounds all_fun rank size.
+Proof. exact mc_bounds_is_code. Qed.
+Print Assumptions C13_mc_bounds_is_code.
+
+Theorem C13_cr_bounds_is_code : forall nfun rank size,
+  cr_bounds_code nfun rank size = cr_bounds nfun rank size /\ cr_imin_code nfun rank size = cr_imin nfun rank size.
+Proof. exact (fun n r s => conj (cr_bounds_is_code n r s) (cr_imin_is_code n r s)). Qed.
+Print Assumptions C13_cr_bounds_is_code.
+
+(* an idle rank (more ranks than items) contributes nothing: its bounds are (0, 0) and the guard is false everywhere *)
+Example C13_ex_idle_rank_owns_nothing :
+  stf_bounds_code 8 11 16 = Some (0, 0) /\ forallb (fun pos => negb (stf_guard_code pos 0 0)) (zrange 8) = true.
+Proof. vm_compute. auto. Qed.
+
 Local Open Scope Z_scope.
 
 Theorem C13_extras_gathered_in_order : forall (B : Type) (g : Z -> list B) (T P : Z),
